@@ -1,5 +1,6 @@
 import GffProofs.Props.C10
 import GffProofs.Props.C10b
+import GffProofs.Props.C10c
 open GffProofs.C10
 #print axioms delete_exact
 #print axioms delete_mem_features
@@ -46,3 +47,19 @@ open GffProofs.C10
 #print axioms update_gff_generic
 #print axioms update_merge_refines_spec
 #print axioms mergeInv_of_dec
+-- C10c: GTF update with gene / transcript inference ON
+#print axioms GffProofs.C10c.import_core
+#print axioms GffProofs.C10c.update_gtf_exact
+#print axioms GffProofs.C10c.update_keeps_stored
+#print axioms GffProofs.C10c.createDb_gtfDbInv
+#print axioms GffProofs.C10c.history_gtf
+#print axioms GffProofs.C10c.history_transcript_extent
+#print axioms GffProofs.C10c.history_gene_extent
+#print axioms GffProofs.C10c.created_transcript_frozen
+#print axioms GffProofs.C10c.created_gene_frozen
+#print axioms GffProofs.C10c.ex44_eval
+#print axioms GffProofs.C10c.update_gtf_stale
+#print axioms GffProofs.C10c.onego_differs
+#print axioms GffProofs.C10c.sfx_others
+#print axioms GffProofs.C10c.suffix_needed
+#print axioms GffProofs.C10c.update_gtf_populate_exact
